@@ -102,6 +102,7 @@ func C18(p *core.Program, r *core.Report) {
 	checkNotifyOnce(p, r)
 	checkBudgetEntriesOutliveBundle(p, r)
 	checkRefundOnlyForChosenPeers(p, r)
+	checkPeerIdentityStable(p, r)
 
 	g := newGuardedEngine(p)
 	n := g.checkGuarded(r, sprayGuarded, true)
@@ -416,4 +417,56 @@ func checkRefundOnlyForChosenPeers(p *core.Program, r *core.Report) {
 	})
 	r.Min("failure reports in forward", 1)
 	r.Count("failure reports in forward", n)
+}
+
+// checkPeerIdentityStable (C13, C18, C20): the routing algorithms book a transmission under the sender's
+// GetPeerEndpointID() when they select it and look the failed peer up by the same call when the failure is reported -
+// typically after the session was lost and the adapter torn down. The identity an adapter learnt from its peer must
+// therefore survive the teardown: for every ConvergenceSender whose GetPeerEndpointID returns a field, that field is
+// written only where the peer's identity is learnt (session set-up: Start and the closures it installs, constructors),
+// never on the way down.
+func checkPeerIdentityStable(p *core.Program, r *core.Report) {
+	n := 0
+	for _, named := range p.Implementations(claPkg, "ConvergenceSender") {
+		get := p.MethodOf(named, "GetPeerEndpointID")
+		if get == nil || get.Blocks == nil {
+			continue
+		}
+		var field string
+		for _, rv := range core.ReturnValues(get, 0) {
+			if ld, ok := rv.V.(*ssa.UnOp); ok {
+				if owner, f, ok := core.FieldOwner(ld.X); ok && owner == named {
+					field = f
+				}
+			}
+		}
+		if field == "" {
+			continue // a constant identity (dtn:none) or a computed one
+		}
+		n++
+		var bad []string
+		for _, fn := range p.RepoFuncs() {
+			if fn.Blocks == nil || fn.Pkg == nil || fn.Pkg.Pkg != named.Obj().Pkg() {
+				continue
+			}
+			core.EachInstr(fn, func(in ssa.Instruction) {
+				st, ok := in.(*ssa.Store)
+				if !ok {
+					return
+				}
+				owner, f, ok := core.FieldOwner(st.Addr)
+				if !ok || owner != named || f != field {
+					return
+				}
+				top := topFunc(fn)
+				okWriter := top.Name() == "Start" || strings.HasPrefix(top.Name(), "New") || strings.HasPrefix(top.Name(), "new") || strings.HasPrefix(top.Name(), "Dial")
+				if !okWriter {
+					bad = append(bad, p.Pos(in.Pos())+" in "+fname(fn))
+				}
+			})
+		}
+		r.Check(len(bad) == 0, "peer-identity/"+named.Obj().Pkg().Name()+"."+named.Obj().Name()+"."+field+"/written-at-set-up-only", "the peer identity an adapter reports (GetPeerEndpointID) is written only while the session is set up, not on the way down: a failure reported after the session was lost must still name the peer the copy was booked for", p.Pos(get.Pos()), "", "written at "+strings.Join(bad, ", ")+": after a lost session GetPeerEndpointID no longer names the peer - ReportFailure finds no entry to refund or to make eligible again, DTLSR does not see which peer disappeared")
+	}
+	r.Min("adapters with a learnt peer identity", 1)
+	r.Count("adapters with a learnt peer identity", n)
 }
